@@ -288,7 +288,11 @@ class BatchRepeatLinearOperator(LinearOperator):
 
         inv_quad_term, logdet_term = self.base_linear_op.inv_quad_logdet(inv_quad_rhs, logdet, reduce_inv_quad=False)
 
-        if inv_quad_term is not None and inv_quad_term.numel():
+        if inv_quad_rhs is None:
+            # the base may return a zero placeholder for the term that was not asked for
+            if inv_quad_term is not None and inv_quad_term.numel():
+                inv_quad_term = torch.zeros(self.batch_shape, dtype=inv_quad_term.dtype, device=inv_quad_term.device)
+        elif inv_quad_term is not None and inv_quad_term.numel():
             inv_quad_term = inv_quad_term.view(*inv_quad_term.shape[:-1], -1, 1, self.batch_repeat.numel())
             output_shape = list(output_shape)
             output_shape[-2] = 1
